@@ -833,6 +833,14 @@ func tableLen(fn *ssa.Function) int64 {
 				}
 			}
 			if ia, ok := in.(*ssa.IndexAddr); ok {
+				// a package-level array of the names
+				if g, ok := ia.X.(*ssa.Global); ok {
+					if at, ok := g.Type().Underlying().(*types.Pointer).Elem().Underlying().(*types.Array); ok {
+						if _, isConst := ia.Index.(*ssa.Const); !isConst {
+							return at.Len()
+						}
+					}
+				}
 				if al, ok := ia.X.(*ssa.Alloc); ok {
 					if at, ok := al.Type().Underlying().(*types.Pointer).Elem().Underlying().(*types.Array); ok {
 						if _, isConst := ia.Index.(*ssa.Const); !isConst {
